@@ -386,7 +386,12 @@ def run(ctx: Any, prog: Program) -> None:
         if isinstance(n, ast.While) and isinstance(n.test, ast.Name):
             stores = {t.value.attr if isinstance(t, ast.Subscript) and isinstance(t.value, ast.Attribute) else None for s in ast.walk(n) if isinstance(s, ast.Assign) for t in s.targets}
             appends = {c.func.value.attr for c in ast.walk(n) if isinstance(c, ast.Call) and isinstance(c.func, ast.Attribute) and c.func.attr == 'append' and isinstance(c.func.value, ast.Attribute)}
-            appends |= {c.func.value.id for c in ast.walk(n) if isinstance(c, ast.Call) and isinstance(c.func, ast.Attribute) and c.func.attr == 'append' and isinstance(c.func.value, ast.Name)}
+            for c in ast.walk(n):
+                if isinstance(c, ast.Call) and isinstance(c.func, ast.Attribute) and c.func.attr == 'append' and isinstance(c.func.value, ast.Name):
+                    # a local list: it stands for the attribute it is stored into (`ent.resources = <list>`), else for its own name
+                    lst_ = c.func.value.id
+                    into_ = {t.attr for a_ in ast.walk(eu) if isinstance(a_, ast.Assign) and dotted(a_.value) == lst_ for t in a_.targets if isinstance(t, ast.Attribute)}
+                    appends.add(into_.pop() if len(into_) == 1 else lst_)
             coll = (stores | appends) - {None}
             if len(coll) == 1:
                 rcoll[n.test.id] = coll.pop()
@@ -605,7 +610,8 @@ def run(ctx: Any, prog: Program) -> None:
     hvals = {m.name: m.value for m in ht}
     ctx.shape('C16.Q3', "file.write('base(')" in ees and hvals.get('INHERIT') == 'base' and 'help_type is HelperTypes.INHERIT' in eps, fgd, ee, 'keyword `base`: written literally, parsed as HelperTypes.INHERIT', func='EntityDef.export', text='keyword base')
     written_dir = set(re.findall(r'(@[a-z_]+)', ' '.join(str(n.value) for n in ast.walk(ee) if isinstance(n, ast.Constant) and isinstance(n.value, str))))
-    compared_dir = {n.comparators[0].value for n in ast.walk(ep) if isinstance(n, ast.Compare) and dotted(n.left) == 'io_type' and isinstance(n.comparators[0], ast.Constant)}
+    compared_dir = {n.comparators[0].value for n in ast.walk(ep) if isinstance(n, ast.Compare) and len(n.ops) == 1 and isinstance(n.ops[0], ast.Eq) and isinstance(n.left, ast.Name) and isinstance(n.comparators[0], ast.Constant)
+                    and isinstance(n.comparators[0].value, str)}
     if not written_dir or not compared_dir:
         ctx.shape('C16.Q3', False, fgd, ee, 'directive keywords not found', func='EntityDef.export', text='keyword @resources')
     # the @resources block is written exactly when resources were defined - `()` means "not defined", an empty list means "defined, nothing
